@@ -5,10 +5,10 @@ EXTENDS FeedSource, Json
 NameSeq == <<"m", "n", "o", "r">>
 MarkVals == {"none", "index", "flag"}
 NoMarks == [x \in Names |-> "none"]
-\* stores in which at most `most` of the feed's names are marked
-MarksFor(fd, most) == {mk \in [Names -> MarkVals] :
-                          /\ \A x \in Names : mk[x] # "none" => \E k \in DOMAIN fd : fd[k].name = x
-                          /\ Cardinality({x \in Names : mk[x] # "none"}) <= most}
+\* stores in which at most `most` of the feed's names are marked (index.wtml = published, skip.flag = ignored)
+NamesIn(fd) == {fd[k].name : k \in DOMAIN fd}
+MarksFor(fd, most) == UNION {{[x \in Names |-> IF x \in S THEN f[x] ELSE "none"] : f \in [S -> {"index", "flag"}]}
+                               : S \in {T \in SUBSET NamesIn(fd) : Cardinality(T) <= most}}
 SetupsOf(fds, most) == UNION {{[feed |-> fd, marks |-> mk] : mk \in MarksFor(fd, most)} : fd \in fds}
 
 \* ---- djangoplicity: position k of the listing carries the k-th name
@@ -16,35 +16,27 @@ DjKinds == {"ok", "art", "noid", "slashid"}
 DjEntry(kind, k) == Entry(NameSeq[k], IF kind = "slashid" THEN "slash" ELSE "plain", IF kind = "art" THEN "Artwork" ELSE "Observation",
                           "TAN", kind # "noid", k)
 DjFeeds(maxlen) == UNION {{[k \in 1..len |-> DjEntry(ks[k], k)] : ks \in [1..len -> DjKinds]} : len \in 0..maxlen}
-DjSetups3 == SetupsOf(DjFeeds(3), 1)
-DjSetups4 == SetupsOf(DjFeeds(4), 2)
+DjSetups(maxlen, most) == SetupsOf(DjFeeds(maxlen), most)
 
 \* ---- astropix: <<name, spelling, projection, has an image_id>>
 AxPoolQ == {<<"m", "plain", "TAN", TRUE>>, <<"m", "upper", "TAN", TRUE>>, <<"m", "under", "TAN", TRUE>>, <<"m", "slash", "TAN", TRUE>>,
-            <<"m", "plain", "SIN", TRUE>>, <<"m", "plain", "null", TRUE>>, <<"m", "plain", "missing", TRUE>>, <<"m", "plain", "TAN", FALSE>>,
-            <<"n", "plain", "TAN", TRUE>>, <<"n", "slash", "missing", TRUE>>}
-AxPoolT == AxPoolQ \cup {<<"n", "upper", "SIN", TRUE>>, <<"n", "under", "missing", TRUE>>, <<"o", "plain", "TAN", TRUE>>}
+            <<"m", "plain", "SIN", TRUE>>, <<"m", "plain", "missing", TRUE>>, <<"m", "plain", "TAN", FALSE>>, <<"n", "plain", "TAN", TRUE>>}
+AxPoolT == AxPoolQ \cup {<<"m", "plain", "null", TRUE>>, <<"n", "slash", "missing", TRUE>>, <<"n", "upper", "SIN", TRUE>>,
+                         <<"n", "under", "missing", TRUE>>, <<"o", "plain", "TAN", TRUE>>}
 AxEntry(kd, k) == Entry(kd[1], kd[2], "Observation", kd[3], kd[4], k)
 AxFeeds(pool, maxlen) == UNION {{[k \in 1..len |-> AxEntry(ks[k], k)] : ks \in [1..len -> pool]} : len \in 0..maxlen}
-AxSetups3 == SetupsOf(AxFeeds(AxPoolQ, 3), 1)
-AxSetups4 == SetupsOf(AxFeeds(AxPoolT, 4), 1)
+AxSetups(pool, maxlen, most) == SetupsOf(AxFeeds(pool, maxlen), most)
 
 CandSet(c) == {[name |-> u.name, alt |-> u.alt, tag |-> c[u].tag, full |-> c[u].full] : u \in {v \in Uids : c[v].ex}}
 \* the end of a behaviour: everything checks/g08.py needs to set the scene, and what must be found afterwards
-Emit == Final => PrintT(<<"R", ToJson([flav |-> Flavour, handler |-> Handler, feed0 |-> feed0, marks |-> marks, size |-> size, tail |-> tail,
-                                        evs |-> evs, runs |-> run,
+\* (also printed at the end of the first of two runs, final = FALSE: the ideal statements are judged at the end of every run)
+Emit == (Ended \/ pc = "capped") =>
+                 PrintT(<<"R", ToJson([flav |-> Flavour, handler |-> Handler, feed0 |-> feed0, marks |-> marks, size |-> size, tail |-> tail,
+                                        evs |-> evs, runs |-> run, final |-> Final,
                                         first |-> [pc |-> prev.pc, c |-> CandSet(prev.c), r |-> prev.r, log |-> prev.log],
                                         last |-> [pc |-> pc, c |-> CandSet(st.c), r |-> st.r, log |-> log],
+                                        known |-> {[e |-> e, name |-> UidOf(e).name, alt |-> UidOf(e).alt, elig |-> Eligible(e),
+                                                    marked |-> (e.hasid /\ Mark(marks, UidOf(e)) # "none")] : e \in known},
                                         acts |-> st.acts, ideal |-> Ideals])>>)
 
-\* ---- the page scanner over every page of up to MaxLines lines
-CONSTANT MaxLines
-LineClasses == {"O", "V", "I", "C"}
-Pages == UNION {[1..len -> LineClasses] : len \in 1..MaxLines}
-\* junk between V and C would be handed to the YAML parser: outside the model
-InModel(lines) == \A a \in DOMAIN lines, b \in DOMAIN lines :
-                     (a < b /\ a >= 2 /\ lines[a] = "V" /\ (\A k \in 2..(a - 1) : lines[k] # "V")) =>
-                        ((\A k \in (a + 1)..b : lines[k] # "C") => lines[b] = "I")
-ScanTheorems == \A lines \in Pages : ScanWellFormed(lines)
-ScanTable == {[lines |-> lines, scan |-> Scan(lines), wf |-> WellFormed(lines), ideal |-> ScanFindsAnyBlock(lines)] : lines \in {l \in Pages : InModel(l)}}
 =============================================================================
